@@ -143,6 +143,42 @@ def variants():
 def total(tier):
     return len(TEMPLATES) * len(variants()) * CHUNKS
 
+def n_edge():
+    return len(TEMPLATES) * len(variants())
+
+FRAME_NOS = lambda frame: (1, 1, 1, (1 << 32) // frame + 1, (1 << 33) // frame + 7, (1 << 40) // frame)
+
+def edge_scenario(k):
+    """The T-states at which contention begins and ends (frame start, the approach to and the whole of the first
+    display line, the last display line and its aftermath, the frame end) for one template on one machine variant.
+    Every quick run sweeps these for every template and variant."""
+    nt = len(TEMPLATES)
+    t = k % nt
+    machine, o7 = variants()[(k // nt) % len(variants())]
+    if machine == '48K':
+        frame, first, line = 69888, 14335, 224
+    else:
+        frame, first, line = 70908, 14361, 228
+    last = first + 192 * line
+    ranges = [[0, 96], [first - 64, first + line + 32], [last - line - 32, last + 64], [frame - 96, frame]]
+    return {'kind': 'frames', 'machine': machine, 'o7ffd': o7, 'template': t, 'name': TEMPLATES[t][0], 'ranges': ranges,
+            't_lo': 0, 't_hi': 0, 'frame_no': FRAME_NOS(frame)[(k // 5) % 6]}
+
+def ranges_of(scn):
+    return scn.get('ranges') or [[scn['t_lo'], scn['t_hi']]]
+
+def shrink(scn):
+    rs = ranges_of(scn)
+    if len(rs) > 1:
+        for r in rs:
+            yield dict(scn, ranges=[r])
+        return
+    lo, hi = rs[0]
+    if hi - lo > 1:
+        mid = (lo + hi) // 2
+        yield dict(scn, ranges=[[lo, mid]])
+        yield dict(scn, ranges=[[mid, hi]])
+
 def scenario(k):
     nt, nv = len(TEMPLATES), len(variants())
     t = k % nt
@@ -152,7 +188,9 @@ def scenario(k):
     frame = 69888 if machine == '48K' else 70908
     size = (frame + CHUNKS - 1) // CHUNKS
     lo = c * size
-    return {'kind': 'frames', 'machine': machine, 'o7ffd': o7, 'template': t, 'name': TEMPLATES[t][0], 't_lo': lo, 't_hi': min(frame, lo + size)}
+    # frame number of the sweep: the second frame, or one beyond 2^32 / 2^33 / 2^40 T-states (long-running clock)
+    fk = (1, 1, 1, (1 << 32) // frame + 1, (1 << 33) // frame + 7, (1 << 40) // frame)[(k // 7) % 6]
+    return {'kind': 'frames', 'machine': machine, 'o7ffd': o7, 'template': t, 'name': TEMPLATES[t][0], 't_lo': lo, 't_hi': min(frame, lo + size), 'frame_no': fk}
 
 def state_regs(tpl):
     r = dict(BASE)
